@@ -634,6 +634,8 @@ class C15(Base):
         return ListDriver(ops)
 
     PIN_SHARE = {"quick": 0.03, "thorough": 0.05}
+    #: share of E3 worlds with one task of more than 500 units
+    E3_MANY_UNITS = {"quick": 0.01, "thorough": 0.006}
 
     def pinned(self, rng, tier):
         """Engine E3, pinned sweep: two small tasks of one family; for k =
@@ -739,6 +741,28 @@ class C15(Base):
                     cfg["p"].update(pivot_costs)
                     cfg["p"]["s"] = 1 + pivot_s % 3
             slots.append((cfg, draw_passes(rng, cfg, 2), "every"))
+        if e3 and rng.random() < self.E3_MANY_UNITS[tier]:
+            # one task with more than 500 units (just below the diagonal, so
+            # the stream stays short): the memoised planners recurse a few
+            # frames per unit, so what another thread does to shared planner
+            # state in the middle of a call can matter here and nowhere else
+            big = rng.choice(("Mixed", "Mixed", "Multistage"))
+            n_big = rng.randint(520, 600)
+            if big == "Mixed":
+                cfg = {"cls": "Mixed", "N": n_big,
+                       "p": {"s": n_big - rng.randint(2, 4),
+                             "storage": rng.choice(("RAM", "DISK"))}}
+            else:
+                cfg = {"cls": "Multistage", "N": n_big,
+                       "p": {"r": 0, "d": n_big - rng.randint(2, 4),
+                             "traj": rng.choice(("maximum", "revolve"))}}
+            slots = slots[:2]
+            slots.insert(rng.randint(0, len(slots)), (cfg, 1, "every"))
+            tasks = [[cfg, passes] for cfg, passes, _ in slots]
+            return ListDriver([["e3", rng.getrandbits(48), tasks,
+                                rng.choice((0.002, 0.005, 0.02)),
+                                rng.choice((0.05, 0.1, 0.3)),
+                                rng.choice((0.5, 1.0))]])
         if e3:
             # engine E3: the same tasks, pre-empted at line granularity
             tasks = [[cfg, passes] for cfg, passes, _ in slots]
